@@ -5,3 +5,7 @@ cd /verif/harness
 export CARGO_NET_OFFLINE=true
 cargo build --offline --release -p vcore
 cargo build --offline --release -p vserde
+cargo build --offline --release -p vnet --features plain --bin vnet_plain
+cargo build --offline --release -p vnet --features native --bin vnet_native
+cargo build --offline --release -p vnet --features rtls --bin vnet_rtls
+(cd /repo && cargo build --offline --release -p ipp-util --target-dir /verif/harness/target/util)
